@@ -43,7 +43,8 @@ type c13Fault struct {
 
 type c13Scenario struct {
 	Seed       uint64   `json:"seed"`
-	IssuerKey  string   `json:"issuer_key"`  // rsa | p256 | p384
+	IssuerKey  string   `json:"issuer_key"`  // rsa | p256 | p384 | p521
+	NegReq     bool     `json:"neg_req,omitempty"` // the request is built for a certificate with a negative serial number
 	Delegated  bool     `json:"delegated"`   // signed by a delegated responder certificate embedded in the response
 	Status     int      `json:"status"`      // 0 good 1 revoked 2 unknown
 	Reason     int      `json:"reason"`
@@ -67,7 +68,8 @@ type c13Scenario struct {
 func genC13(seed uint64, tier string) any {
 	r := kit.NewRng(seed)
 	sc := &c13Scenario{Seed: seed}
-	sc.IssuerKey = []string{"rsa", "p256", "p384"}[r.Intn(3)]
+	sc.IssuerKey = []string{"rsa", "p256", "p384", "p521"}[r.Pick([]int{3, 3, 3, 2})]
+	sc.NegReq = r.Chance(1, 6)
 	sc.Delegated = r.Chance(2, 5)
 	sc.Status = r.Intn(3)
 	sc.Reason = []int{0, 1, 2, 3, 4, 5, 6, 8, 9, 10}[r.Intn(10)]
@@ -194,7 +196,7 @@ func c13Setup() *c13PKI {
 	}
 	p := &c13PKI{issuer: map[string]*kit.Cert{}, z: map[string]*zx509.Certificate{}, leaf: map[string]*kit.Cert{}, leafZ: map[string]*zx509.Certificate{},
 		responder: map[string]*kit.Cert{}, rogue: map[string]*kit.Cert{}, responderZ: map[string]*zx509.Certificate{}, rogueZ: map[string]*zx509.Certificate{}}
-	keys := map[string]string{"rsa": "rsa5", "p256": "p256_7", "p384": "p384_2"}
+	keys := map[string]string{"rsa": "rsa5", "p256": "p256_7", "p384": "p384_2", "p521": "p521_0"}
 	p.otherIssuer = kit.MakeCert(kit.CertSpec{Name: "Other OCSP CA", Key: "p256_8", IsCA: true, MaxPathLen: -1, Serial: 70})
 	p.otherIssuerZ = zparse(p.otherIssuer.DER)
 	for k, key := range keys {
@@ -394,7 +396,17 @@ func c13Run(t *testing.T, sc *c13Scenario, p *c13PKI, o *Outcome) *Failure {
 	leafZ := zparse(leaf.DER)
 
 	// ---- request round trip (requester → responder)
-	reqDER, err := ocsp.CreateRequest(leafZ, issuerZ, &ocsp.RequestOptions{Hash: crypto.Hash(sc.Hash)})
+	reqSerial := sc.Serial
+	reqCert := leafZ
+	if sc.NegReq {
+		// a certificate with a negative serial number (parsers accept them; RFC 5280 4.1.2.2 asks to handle them gracefully)
+		c := *leafZ
+		reqSerial = -sc.Serial
+		c.SerialNumber = big.NewInt(reqSerial)
+		reqCert = &c
+		o.count("probe.request_negative_serial", 1)
+	}
+	reqDER, err := ocsp.CreateRequest(reqCert, issuerZ, &ocsp.RequestOptions{Hash: crypto.Hash(sc.Hash)})
 	if err != nil {
 		return Failf("c13.request", "CreateRequest failed for a supported hash", "hash %d: %v", sc.Hash, err)
 	}
@@ -413,7 +425,7 @@ func c13Run(t *testing.T, sc *c13Scenario, p *c13PKI, o *Outcome) *Failure {
 	hh.Reset()
 	hh.Write(issuer.Std.RawSubject)
 	wantNH := hh.Sum(nil)
-	if req.SerialNumber.Int64() != sc.Serial || !bytes.Equal(req.IssuerKeyHash, wantKH) || !bytes.Equal(req.IssuerNameHash, wantNH) || int(req.HashAlgorithm) != sc.Hash {
+	if req.SerialNumber.Int64() != reqSerial || !bytes.Equal(req.IssuerKeyHash, wantKH) || !bytes.Equal(req.IssuerNameHash, wantNH) || int(req.HashAlgorithm) != sc.Hash {
 		return Failf("c13.request", "request does not parse back to the same hashes and serial", "serial %v hash %v", req.SerialNumber, req.HashAlgorithm)
 	}
 	o.count("probe.request_roundtrip", 1)
@@ -429,7 +441,7 @@ func c13Run(t *testing.T, sc *c13Scenario, p *c13PKI, o *Outcome) *Failure {
 	if sc.ExtraExt {
 		tmpl.ExtraExtensions = []zpkix.Extension{{Id: []int{1, 3, 6, 1, 4, 1, 99999, 1}, Critical: false, Value: []byte{4, 2, 1, 2}}}
 	}
-	responderZ, signer := issuerZ, ocspSignerKey(map[string]string{"rsa": "rsa5", "p256": "p256_7", "p384": "p384_2"}[ik])
+	responderZ, signer := issuerZ, ocspSignerKey(map[string]string{"rsa": "rsa5", "p256": "p256_7", "p384": "p384_2", "p521": "p521_0"}[ik])
 	signerCert := issuer
 	if sc.Delegated {
 		responderZ, signer, signerCert = p.responderZ[ik], ocspSignerKey("p256_9"), p.responder[ik]
